@@ -103,6 +103,7 @@ def Out.abs (producerGrant : Bool) : Out → AOut
   | .item v => if producerGrant then .granted 1 else .item v
   | .err v => .err v
   | .win _ _ _ _ vs => if producerGrant then .granted vs.length else .vals vs
+  | .vals vs => .vals vs
   | .panic => .panic
 
 /-- Is the outcome of `op` a grant to the producer? -/
